@@ -138,11 +138,32 @@ impl Cmp<'_> {
                             info = format!("analytic {a:e} vs numeric {d:e} (err est {err:e}, scale {s:e}, h_rel {h_rel})");
                             if mism.iter().any(|(d0, s0)| (d0 - d).abs() <= 100.0 * rtol * s.max(*s0)) {
                                 verdict = DVerdict::Mismatch;
+                                mism.push((d, s));
                                 break;
                             }
                             mism.push((d, s));
                         }
                         DVerdict::Inconclusive => {}
+                    }
+                }
+            }
+        }
+        // A gross mismatch that a very small stencil does not confirm is an unresolved local
+        // feature of the model function (e.g. a state within 1e-4 relative of a pole of the Pade
+        // form of the polar terms): the dual-number value is the derivative AT the point, the
+        // Ridders stencils straddle the feature. Only gross disagreements (> 50 %) are eligible
+        // and the small-stencil value has to reproduce the analytic value within 1 %.
+        if verdict == DVerdict::Mismatch {
+            let gross = mism.iter().all(|(d, _)| (a - d).abs() > 0.5 * a.abs().max(d.abs()));
+            if gross && a.is_finite() {
+                for h_rel in [1e-6, 1e-7, 1e-8] {
+                    let h = h_rel * x0.abs();
+                    if let (Some(fp), Some(fm)) = (f(x0 + h), f(x0 - h)) {
+                        let d = (fp - fm) / (2.0 * h);
+                        if (d - a).abs() <= 1e-2 * a.abs() {
+                            self.obs.inconclusive(format!("{label} (local feature below the stencil size: a stencil of {h_rel:e} reproduces the analytic value)"));
+                            return;
+                        }
                     }
                 }
             }
